@@ -4,7 +4,9 @@ import numpy as np
 from props.common import load_impl, exc_name
 
 RULE = ("random small datasets (3-8 rows, 2 real features, 2-3 classes, 2-4 validation points) x methods (neighbor with the default distance, bruteforce, montecarlo "
-        "with a fixed seed) rendered as: ndarray / DataFrame (default, string and shuffled-integer index) features; ndarray / Series labels; integer (contiguous, gapped-from-0, negative) / float / string "
+        "with a fixed seed) rendered as: ndarray / DataFrame (default, string and shuffled-integer index) features; ndarray / Series labels; feature DataFrames and label Series whose row indexes are "
+        "drawn INDEPENDENTLY of each other (default, permuted 0..n-1, reversed, gapped, string, duplicated values; DataFrame+Series, ndarray+Series, DataFrame+ndarray; for the "
+        "training AND the validation inputs; int or string labels) - rows are matched by position, all of these are accepted by all three methods on the pinned tree; integer (contiguous, gapped-from-0, negative) / float / string "
         "labels (order-preserving renaming); dense features vs a FunctionTransformer->csr_matrix pipeline; a stateless feature-extraction pipeline (FunctionTransformer) "
         "vs pre-transformed features, and for the neighbor method a stateful one (StandardScaler) vs features transformed by an independently fitted copy. Every rendering a method accepts must give the same score vector (1e-9) as the plain ndarray/int rendering; a documented "
         "rejection (AssertionError/ValueError/TypeError raised before any score is produced) is recorded as 'not accepted', not a violation. Non-trivial = base score "
@@ -78,9 +80,54 @@ def run(ctx):
             "scale_pipeline_vs_pretransformed": lambda: (X, y, Xv, yv, Pipeline([("f", FunctionTransformer(lambda A: np.asarray(A) * np.array([3.0, 0.2]) + np.array([1.0, -2.0])))])),
             "map_pipeline": lambda: (np.hstack([X, np.zeros((n, 1))]), y, np.hstack([Xv, np.zeros((m, 1))]), yv, Pipeline([("cut", FunctionTransformer(lambda A: np.asarray(A)[:, :2]))])),
         }
+        # pandas containers whose row indexes are NOT the default one and do NOT match between features and labels: the library takes rows by POSITION
+        # (on the pinned tree every combination below is accepted by all three methods and gives the ndarray scores), so the label column of a shuffled /
+        # re-sorted table next to a freshly built feature frame, string keys, reversed, gapped or even duplicated index values must change nothing.
+        def rand_index(k, kind):
+            if kind == "default":
+                return None
+            if kind == "perm":                      # 0..k-1 in another order: every label of a default RangeIndex exists, at another position
+                ix = list(range(k))
+                while k > 1 and ix == list(range(k)):
+                    rng.shuffle(ix)
+                return ix
+            if kind == "reversed":
+                return list(range(k - 1, -1, -1))
+            if kind == "gapped":
+                return rng.sample(range(-5, 60), k)
+            if kind == "strings":
+                return ["r%02d" % x for x in rng.sample(range(100), k)]
+            return [rng.randrange(2) for _ in range(k)]          # "dup": repeated index values
+
+        idx_info = {}
+
+        def pandas_mix(name, kinds, labels="int"):
+            # kinds = (X_train, y_train, X_val, y_val), each "ndarray" or an index kind; indexes of features and labels are drawn independently
+            ixs = [None if kd == "ndarray" else rand_index(k, kd) for kd, k in zip(kinds, (n, n, m, m))]
+            idx_info[name] = dict(kinds=list(kinds), labels=labels, X_train_index=ixs[0], y_train_index=ixs[1], X_val_index=ixs[2], y_val_index=ixs[3])
+            ly, lyv = (y, yv) if labels == "int" else (np.array([str_map[k] for k in y]), np.array([str_map[k] for k in yv]))
+
+            def mk():
+                fx = lambda A, kd, ix: A if kd == "ndarray" else pd.DataFrame(A, columns=["a", "b"], index=ix)      # noqa: E731
+                fy = lambda a, kd, ix: a if kd == "ndarray" else pd.Series(a, index=ix)      # noqa: E731
+                return fx(X, kinds[0], ixs[0]), fy(ly, kinds[1], ixs[1]), fx(Xv, kinds[2], ixs[2]), fy(lyv, kinds[3], ixs[3]), None
+            renderings[name] = mk
+        pandas_mix("dataframe_default_series_shuffled_index", ("default", "perm", "default", "perm"))
+        pandas_mix("dataframe_shuffled_series_default_index", (rng.choice(["perm", "reversed"]), "default", rng.choice(["perm", "reversed"]), "default"))
+        pandas_mix("ndarray_series_shuffled_index", ("ndarray", rng.choice(["perm", "gapped", "strings"]), "ndarray", rng.choice(["perm", "gapped", "strings"])))
+        IX = ["default", "perm", "perm", "reversed", "gapped", "strings", "dup"]
+        for j in range(2 if q else 4):
+            kinds = tuple(rng.choice(["ndarray"] + IX) for _ in range(4))
+            if j == 0:
+                kinds = (rng.choice(IX), rng.choice(IX[1:]), kinds[2], kinds[3])          # training: DataFrame + Series with a non-default label index
+            elif j == 1:
+                kinds = (kinds[0], kinds[1], rng.choice(IX), rng.choice(IX[1:]))          # validation likewise
+            pandas_mix("pandas_mixed_index_%d" % j, kinds, labels=rng.choice(["int", "int", "str"]))
         for name, mk in renderings.items():
             Xa, ya, Xva, yva, pipe = mk()
             rcase = dict(case, rendering=name)
+            if name in idx_info:
+                rcase["pandas"] = idx_info[name]
             ref = base
             if name == "stateful_pipeline_vs_pretransformed":
                 if method != "neighbor":
